@@ -1954,6 +1954,10 @@ class FortranFile:
             return False
 
         _ln = ln
+        # A trailing docstring of the previous statement is not part of a `!>`
+        # block that documents the next entity
+        if doc_match.group(1) == ">":
+            add_line_comment(file_ast, docs)
         ln, docs[:], predocmark = self.get_docstring(ln, line, doc_match, docs)
 
         # Count the total length of all the stings in docs
